@@ -39,6 +39,12 @@ CLAIMED = {
  "C13": dict(cat="model_checking", tech=MC + " + bounded-liveness continuation from every distinct state", ref="DESIGN.md §5 C13",
    text="order-book evolutions between end times for max rounds 0-2, rates 0.25/0.5/1 (thorough +0.1), periods 0/1/2: decision at every end-time block equals the exact-rational rule, appended end time = last + period, recorded matched count = reference count; from every distinct open state one block per successive end time must settle within the rounds left",
    note=TRUST + "; interpretation I3 (rates that depend on 18-decimal rounding of cur/prev are kept out of the alphabet); round limits above 2 only in the creation-precondition check"),
+ "C18": dict(cat="model_checking", tech=MC + " with a per-state field-alphabet probe menu", ref="DESIGN.md §5 C18",
+   text="in every explored state of the lifecycle / multi-auction / poor-bidder scenarios every message type is delivered with one field at a time (thorough: every pair) replaced by invalid and boundary values; every decision is compared in both directions with a reference written from the message rules, every rejection with an unchanged store dump, balances and community pool at the transaction boundary",
+   note=TRUST + "; interpretation I5 (where the documents are silent the reference follows ValidateBasic + the named guards); MsgAddAllowedBidder is decided by C10"),
+ "C19": dict(cat="model_checking", tech=MC + " + run-wide non-interference table (differential oracle between states that agree on one auction)", ref="DESIGN.md §5 C19",
+   text="histories over 2-3 concurrent auctions sharing auctioneer, bidders and denominations (crossed and twin), failed operations included: byte-level frame condition for every non-target auction around every transition, agreed terms before/after, id assignment, pairwise distinct escrow addresses, and a table keyed by (projection of X, actor balances, params, time, op) that flags different outcomes when only other auctions differ",
+   note=TRUST + "; at most 3 concurrent auctions"),
  "C07": dict(cat="model_checking", tech=MC + " + exhaustive single-fault enumeration over the bank calls of every distinct effective block",
    ref="DESIGN.md §5 C07",
    text="(a) every explored state of the lifecycle and multi-auction scenarios x every later block instant: the module's registered block hook returns nil and does not panic; (b) for every distinct (state, block time) whose block calls the bank, each call index in turn returns an injected error and the hook must return an error wrapping it",
